@@ -211,3 +211,31 @@ Fixpoint trace_cone_dyn (run : N -> list (option N) -> list (option N) -> N -> N
      map (fun x => (fst x, negb (oN_eqb (fs y2 (fst x)) (fs y (fst x))))) echg)
       :: trace_cone_dyn run P' y2 rest
   end.
+
+(* fixed plan with amended inputs: the gated engine [a_build] (the code); [tab]: which paths a
+   script step amends, by the content of its script (Engine.amend_tab); commands do not fail *)
+Fixpoint check_cone_amend (run : N -> list (option N) -> list (option N) -> N -> N)
+         (tab : list (N * N * list N)) (proj : project) (y : asys) (phases : list cone_phase) : bool :=
+  match phases with
+  | [] => true
+  | (src, env, eran, eskip, echg) :: rest =>
+    let y1 := resync_a proj y (src_of src, src_of env) in
+    let y2 := a_build run (amend_tab tab) no_fail true proj y1 in
+    let log := a_build_log run (amend_tab tab) no_fail true proj proj y1 in
+    set_eqb (map fst (filter snd log)) eran &&
+    forallb (fun x => memN x eskip) (map fst (filter (fun x => negb (snd x)) log)) &&
+    forallb (fun x => Bool.eqb (negb (oN_eqb (fs (abase y2) (fst x)) (fs (abase y) (fst x)))) (snd x)) echg &&
+    check_cone_amend run tab proj y2 rest
+  end.
+Fixpoint trace_cone_amend (run : N -> list (option N) -> list (option N) -> N -> N)
+         (tab : list (N * N * list N)) (proj : project) (y : asys) (phases : list cone_phase)
+  : list (list (N * bool) * list (N * bool)) :=
+  match phases with
+  | [] => []
+  | (src, env, _, _, echg) :: rest =>
+    let y1 := resync_a proj y (src_of src, src_of env) in
+    let y2 := a_build run (amend_tab tab) no_fail true proj y1 in
+    (a_build_log run (amend_tab tab) no_fail true proj proj y1,
+     map (fun x => (fst x, negb (oN_eqb (fs (abase y2) (fst x)) (fs (abase y) (fst x))))) echg)
+      :: trace_cone_amend run tab proj y2 rest
+  end.
